@@ -129,7 +129,7 @@ func registerC02() {
 		},
 		MinNontrivial: 200,
 		Families: []lib.Family{
-			{Name: "model", N: func(t string) uint64 { return tierN(t, 24000, 1500000) }, Run: c02Model},
+			{Name: "model", N: func(t string) uint64 { return tierN(t, 160000, 3000000) }, Run: c02Model},
 			{Name: "device", N: func(t string) uint64 { return uint64(len(Corpus())) }, Run: c02Device},
 		},
 		Finish: func(c *lib.Ctx, cov map[string]interface{}) {
